@@ -418,6 +418,12 @@ func (conn *Conn) read(ctx *Context, async bool) {
 					return
 				}
 			} else if u.Stream == openStream {
+				// The stream is established: every further frame with this sequence
+				// number is a message, whether or not NewStream has returned yet.
+				conn.mutex.Lock()
+				u.NoRequest = 0
+				u.Stream = streaming
+				conn.mutex.Unlock()
 				vhook("c.ackdone", conn, call, seq, 2)
 				call.done()
 			}
